@@ -392,7 +392,39 @@ func c10PagingBeyondInt64(c *core.Ctx) {
 	}
 }
 
+// c10SimpleLiterals: the simplest sentences there are (one symbol compared with one string literal), with a raw control
+// character or a byte that is no UTF-8 put into the literal at every position: none of them is a sentence.
+func c10SimpleLiterals(c *core.Ctx) {
+	tbl := memsym.NewTable()
+	tbl.Types["sla"], tbl.Types["slb"] = ast.NodeTypeString, ast.NodeTypeString
+	for _, form := range []struct{ pre, lit, post string }{{`sla = "`, "ab", `"`}, {`slb != "`, "x y", `"`}, {` sla  =  "`, "", `" `}, {`sla = "`, "é", `"`}} {
+		if _, err := ast.Parse(tbl, form.pre+form.lit+form.post); err != nil {
+			c.Violationf("C10 a simple comparison with a string literal is refused", form.pre+form.lit+form.post, "%v", err)
+			continue
+		}
+		for pos := 0; pos <= len(form.lit); pos++ {
+			if pos > 0 && pos < len(form.lit) && !utf8.RuneStart(form.lit[pos]) {
+				continue
+			}
+			for _, bad := range []string{"\t", "\n", "\r", "\x01", "\x1f", "\x00", "\xff", "\x80", "\xc0"} {
+				text := form.pre + form.lit[:pos] + bad + form.lit[pos:] + form.post
+				_, err := ast.Parse(tbl, text)
+				c.Eval()
+				c.Count("simple_literals_with_a_raw_control_or_non_utf8_byte", 1)
+				if err == nil {
+					what := "a raw control character"
+					if bad[0] >= 0x80 {
+						what = "a byte that is not UTF-8"
+					}
+					c.Violationf("C10 a simple comparison whose string literal holds "+what+" is accepted", map[string]any{"input": text}, "%q parsed without an error", text)
+				}
+			}
+		}
+	}
+}
+
 func c10TwoTables(c *core.Ctx) {
+	c10SimpleLiterals(c)
 	c10PagingBeyondInt64(c)
 	a, b := memsym.NewTable(), memsym.NewTable()
 	a.Types["twa"], a.Types["twn"], a.Types["tws"] = ast.NodeTypeString, ast.NodeTypeInt64, ast.NodeTypeString
